@@ -215,9 +215,6 @@ def wf_problems(sf, gf):
 
 def classify(tname, src, probs):
     low = src.lower()
-    if tname == 'sanitise_imports':
-        if re.search(r'^module\s+(?!cmod|dmod)\w+\s*\n(?:.*\n)*?\s*use\s', low, re.M):
-            return 'sanitise-imports-module-spec'
     if tname == 'remove_unused_vars(all)' and probs[0][0] in ('undeclared', 'gfortran') and re.search(r'^\s*do\s+\w+\s*=', low, re.M):
         return 'remove-unused-vars-loop-variable'
     if tname.startswith('resolve_vector_notation') and probs[0][0] in ('reparse', 'gfortran') and \
@@ -233,11 +230,6 @@ def classify(tname, src, probs):
     if tname in ('inline_marked_subroutines', 'inline_internal_procedures') and probs[0][0] in ('reparse', 'gfortran') and \
             re.search(r'::\s*\w+\([^)]*:[^)]*\)', low) and re.search(r'[(,]\s*:\s*[,)]', low):
         return 'inline-offset-on-bare-range'
-    if tname == 'add_explicit_array_dimensions' and probs[0][0] in ('reparse', 'gfortran') and re.search(r'^\s*associate\s*\(', low, re.M):
-        return 'explicit-dims-on-associate-name'
-    if tname == 'inline_constant_parameters' and probs[0][0] in ('assoc-name', 'reparse', 'gfortran') and \
-            re.search(r'^\s*associate\s*\(', low, re.M) and 'parameter' in low:
-        return 'inline-constants-associate-name'
     return None
 
 
@@ -382,7 +374,7 @@ class C41(Prop):
     extra_obligations = ['oracle: scope chains, declared-or-imported, re-parse and gfortran syntax check after every registered transformation']
 
     def classes(self):
-        return ['sanitise-imports-module-spec', 'remove-unused-vars-loop-variable', 'vector-notation-half-open-range', 'normalize-shape-drops-stride', 'merge-associates-detached-scope', 'loop-unroll-exit-cycle', 'inline-offset-on-bare-range', 'explicit-dims-on-associate-name', 'inline-constants-associate-name']
+        return ['remove-unused-vars-loop-variable', 'vector-notation-half-open-range', 'normalize-shape-drops-stride', 'merge-associates-detached-scope', 'loop-unroll-exit-cycle', 'inline-offset-on-bare-range']
 
     def gen(self, rng, tier):
         rounds = {'quick': 1, 'thorough': 8, 'search': 3}.get(tier, 1)
